@@ -4,6 +4,7 @@ package main
 // and chunking readers, limited writers, item collection with a cap.
 
 import (
+	"bytes"
 	"errors"
 	"io"
 	"math"
@@ -197,3 +198,16 @@ func termVal(isErr bool) Val {
 	}
 	return I(0)
 }
+
+// marshalKeeps reports whether a MarshalText result is still intact after further
+// MarshalText calls on other records (a result that aliases a pooled or shared
+// buffer is overwritten by the next call).
+func marshalKeeps(first []byte, other func()) bool {
+	snapshot := append([]byte(nil), first...)
+	for i := 0; i < 3; i++ {
+		other()
+	}
+	return bytes.Equal(first, snapshot)
+}
+
+var vMarshalAliased = L(I(3), S("a MarshalText result is overwritten by later MarshalText calls"))
